@@ -102,7 +102,7 @@ theorem dispatch_now_show (hf : firing cfgNow '$' = [.show]) (buf : Str) (a : Ob
 /-- the reference semantics on a well-typed format: exactly the expected calls, outcome ok -/
 theorem refRun_typed (ht : (∀ c ∈ intConvs, firing cfgNow c = [.cint]) ∧ (∀ c ∈ fltConvs, firing cfgNow c = [.cfloat]) ∧
       firing cfgNow 'c' = [.cint] ∧ firing cfgNow 's' = [.cstr] ∧ firing cfgNow 'p' = [.obj] ∧ firing cfgNow '$' = [.show])
-    (showCalls : Obj → List Call) (hs : ∀ a o, shw a o = (emitAll prim o (showCalls a), .ok)) (args : List Obj) :
+    (showCalls : Obj → List Call) (args : List Obj) (hs : ∀ a ∈ args, ∀ o, shw a o = (emitAll prim o (showCalls a), .ok)) :
     ∀ (segs : List Seg) (k : Nat) (cs : List Call) (o : Out), expectCalls showCalls args segs k = some cs →
       AllAcc prim cs → refRun cfgNow prim shw args segs k o = (emitAll prim o cs, .ok) := by
   intro segs
@@ -132,7 +132,7 @@ theorem refRun_typed (ht : (∀ c ∈ intConvs, firing cfgNow c = [.cint]) ∧ (
         · subst hc
           simp only [if_true, Option.map_eq_some_iff] at h
           obtain ⟨cs', h1, rfl⟩ := h
-          rw [dispatch_now_show prim shw ht.2.2.2.2.2 _ a o (showCalls a) (hs a o)]
+          rw [dispatch_now_show prim shw ht.2.2.2.2.2 _ a o (showCalls a) (hs a (List.mem_of_getElem? hk) o)]
           simpa [emitAll_append] using ih (k + 1) cs' _ h1 (fun c hc => hacc c (by simp [hc]))
         · simp only [hc, if_false] at h
           cases hv : specVal c a with
